@@ -110,6 +110,10 @@ type crashSpec struct {
 	Runner bool          `json:"runner,omitempty"` // the hit is reached by the command runner, not the daemon
 	After  time.Duration `json:"after,omitempty"`  // for "kill": delay after the submit was answered
 	Phase  string        `json:"phase,omitempty"`  // for "kill": "running" or "finished"
+	// Pause: the daemon alone dies; its runner, alive, is held (SIGSTOP) from the moment the daemon
+	// is gone until the new daemon has scanned the unit, so that the restart finds the record
+	// still Pending with a live runner behind it, and then goes on (SIGCONT)
+	Pause bool `json:"pause_runner,omitempty"`
 }
 
 func (c crashSpec) String() string {
@@ -119,6 +123,9 @@ func (c crashSpec) String() string {
 	who := "daemon"
 	if c.Runner {
 		who = "runner"
+	}
+	if c.Pause {
+		who += "+runner-held"
 	}
 	return fmt.Sprintf("%s:%d@%s", c.Point, c.Hit, who)
 }
